@@ -310,7 +310,35 @@ def rule_unfix(run):
     else: run.unknown(key, 'shape not recognised', where=fx.where())
 
 
+def rule_uniq(run):
+    run.rule('UNIQ', 'uniqstring() returns every character of its argument once (first occurrences, in order): the name generators rely on '
+             'the alphabet having no repeats, or two numbers get the same name', floor=1)
+    fi = run.prog.func('mulgrids.uniqstring')
+    key = 'mulgrids.uniqstring :: distinct characters'
+    rets = [r for r in walk_no_nested(fi.node) if isinstance(r, ast.Return) and r.value is not None]
+    if len(rets) != 1:
+        run.unknown(key, '%d returns' % len(rets), where=fi.where()); return
+    p = fi.params[0]
+    from ..formula import compare
+    r = compare(rets[0].value, "''.join(sorted(set(%s), key=%s.index))" % (p, p),
+                alternatives=("''.join(dict.fromkeys(%s))" % p, "''.join(OrderedDict.fromkeys(%s))" % p, "''.join(sorted(set(%s), key=%s.find))" % (p, p)))
+    if r == 'equal': run.ok(key, norm(rets[0].value), where=fi.where(rets[0]))
+    elif any(isinstance(c, ast.Call) and call_name(c) == 'groupby' for c in ast.walk(fi.node)) and \
+            not any(isinstance(c, ast.Call) and call_name(c) in ('sorted', 'sort', 'set') for c in ast.walk(fi.node)):
+        run.violated(key, '`%s`: itertools.groupby only merges *adjacent* equal characters, so an alphabet like "abcab" keeps its repeats and the '
+                     'generated column / layer / node names collide' % norm(rets[0].value), where=fi.where(rets[0]))
+    else: run.unknown(key, 'form `%s` not recognised' % norm(rets[0].value), where=fi.where(rets[0]))
+
+
+def rule_memo(run):
+    run.rule('MEMO', 'a result remembered between calls (memo dictionary, caching decorator) is keyed by every parameter it depends on', floor=1)
+    from .memo import memo_rule
+    memo_rule(run, ['mulgrids'])
+
+
 def check(run):
+    run.guarded('UNIQ', rule_uniq)
+    run.guarded('MEMO', rule_memo)
     run.guarded('SLICE', rule_slice)
     run.guarded('LENGUARD', rule_lenguard)
     run.guarded('AVOID', rule_avoid)
